@@ -267,3 +267,38 @@ def ctor_keywords(k_i: bool, k_lst: bool, k_sub: bool, x: int, k_none: bool) -> 
     for p in ("dct", "pw", "ct.v", "nodef", "raw", "rawd"):
         hold("ctor", obs[p] == (DEFAULTS[p], False), lambda: "unsupplied field %s: %r" % (p, obs[p]))
     return True
+
+
+# --------------------------------------------------------------------------- fields that never hold a value
+@obligation(prop="C12", sites=("fresh",), budget={"quick": 60, "thorough": 120},
+            encodes=["cincoconfig.support.is_value_defined"],
+            what="virtual and instance-method fields (root or nested, symbolic), which have no default and store "
+                 "nothing, are reported as NOT user-defined on a fresh configuration and after their siblings were "
+                 "assigned, loaded or reset; the siblings' own status follows the state machine")
+def valueless_fields_not_user_defined(nested: bool, kind: int, touch: int) -> bool:
+    """
+    pre: 0 <= kind <= 1 and 0 <= touch <= 3
+    post: _
+    """
+    from cincoconfig import InstanceMethodField, VirtualField
+    schema = Schema()
+    owner = schema.sec if nested else schema
+    owner.plain = IntField(default=3)
+    if kind == 0:
+        owner.v = VirtualField(lambda cfg: 42)
+    else:
+        owner.v = InstanceMethodField(lambda cfg: 42)
+    pre = "sec." if nested else ""
+    cfg = schema()
+    hold("fresh", not is_value_defined(cfg, pre + "v"), "a field that never holds a value is reported user-defined on a fresh configuration")
+    hold("fresh", not is_value_defined(cfg, pre + "plain"), "fresh sibling reported user-defined")
+    if touch == 1:
+        cfg[pre + "plain"] = 9
+    elif touch == 2:
+        cfg.load_tree(_tree(pre + "plain", 9))
+    elif touch == 3:
+        cfg[pre + "plain"] = 9
+        reset_value(cfg, pre + "plain")
+    hold("fresh", is_value_defined(cfg, pre + "plain") == (touch in (1, 2)), "sibling status wrong")
+    hold("fresh", not is_value_defined(cfg, pre + "v"), "touching a sibling made the valueless field user-defined")
+    return True
